@@ -125,7 +125,19 @@ def rule_check_mirror(ctx):
     # every attacking piece contributes piece.get_attacks(square of that piece)
     ga = [(bi, t) for bi, t in g.calls() if callee_is(t, "board::piece::Kind::get_attacks")]
     ok = len(ga) == 1 and g.in_loop(ga[0][0])
-    if ok:
+    # the loop may also run over the set bits of the attackers' board (`for square in attackers`): then the square is the popped
+    # bit and membership needs no test
+    pl = None
+    if ok and not [1 for _b, t in g.calls() if "Range" in (t.get("callee") or "") and (t.get("callee") or "").endswith("::next")]:
+        pl_why, pl = C.pop_loop(g, gsym, ga[0][0])
+    if ok and pl is not None:
+        pe = gsym.operand(ga[0][1]["args"][0])
+        sq = mir.strip_copies(gsym.operand(ga[0][1]["args"][1]))
+        idx = sq
+        while idx[0] == "cast" or (idx[0] == "call" and idx[1].endswith("Square as std::convert::From<u8>>::from") and len(idx[2]) == 1):
+            idx = mir.strip_copies(idx[1] if idx[0] == "cast" else idx[2][0])
+        ok = idx[0] == "call" and idx[1] == pl["index"][1] and any(isinstance(x, tuple) and x[0] == "call" and x[1] == B_ + "get_piece" and len(x[2]) == 2 and mir.strip_copies(x[2][1]) == sq for x in walk(pe))
+    elif ok:
         pe = gsym.operand(ga[0][1]["args"][0])
         sq = gsym.operand(ga[0][1]["args"][1])
         ok = "get_piece" in expr_str(pe) and expr_str(sq).count("next") >= 1 and expr_str(pe).count("next") >= 1
@@ -150,6 +162,13 @@ def rule_check_mirror(ctx):
                 bit = a1[0] == "bin" and a1[1].startswith("Shl") and a1[2][:2] == ("const", 1) and "::next" in expr_str(a1[3])
                 good = a0[0] == "var" and a0[1] in attackers and bit and c[1] == frozenset([is_ne])
             (member if good else other).append(c)
+        if pl is not None:
+            init = mir.strip_copies(pl["init"])
+            if init[0] == "field" and init[-1] == "0" and len(init) == 3:
+                init = mir.strip_copies(init[1])
+            masktxt = expr_str(gsym.operand(g.blocks[pl["head"]].term["discr"]))
+            other = [c for c in member + other if c[2] != pl["head"]]
+            member = [("the loop runs over the set bits of the attackers' board", frozenset(["by iteration"]), pl["head"], ())] if init[0] == "var" and init[1] in attackers and pl["once"](ga[0][0]) else []
         ctx.check(len(member) == 1 and not other, "get_attacked_squares:every-attacker-and-only-attackers", "a square contributes iff its bit is set in the attackers' board (nothing else decides)", g.where(ga[0][0]),
                   bad_what="the contribution of a square is decided by %s: not exactly `attackers & (1 << square) != 0`" % ([c[0][:80] + " in " + str(sorted(map(str, c[1]))) for c in member + other] or "nothing"))
         # the contributions are OR-ed into what is returned, which starts empty
@@ -450,6 +469,12 @@ def rule_generators(ctx):
                 it = src[2][0] if src[0] == "call" and src[1].endswith("IntoIterator>::into_iter") and len(src[2]) == 1 else None
                 conv = it is not None and it[0] == "call" and (it[1].endswith("Into<U>>::into") or it[1] == c06_bitvec()) and len(it[2]) == 1 and mir.strip_copies(it[2][0]) == mask
                 conv = conv and _into_is_square_list(b)
+                if not conv:
+                    # `mask.squares().map(..)`: the source is an iterator type whose `next` C06.bit-iteration has read as
+                    # "the square of every set bit, lowest first"
+                    from . import c06
+                    over = c06.bit_iterator_over(ix, src)
+                    conv = over is not None and mir.strip_copies(over) == mask
                 clo = mir.strip_copies(clo)
                 cb = ix.bodies.get(clo[1]) if clo[0] == "closure" else None
                 res = None
@@ -867,6 +892,28 @@ def rule_square_loops(ctx):
                 lo, hi = const_int(rv["ops"][0]), const_int(rv["ops"][1])
                 rngs.add((lo, hi))
         n += 1
+        if not rngs and key != c04.ZFROM:
+            # no counting loop at all: the squares are the set bits of a board of pieces (`for square in own_pieces`)
+            main = [(bi, t) for bi, t in b.calls() if callee_is(t, "board::piece::Kind::get_moveset", "board::piece::Kind::get_attacks") and b.in_loop(bi)]
+            why, pl = C.pop_loop(b, sym, main[0][0]) if len(main) == 1 else ("%d generator calls in loops" % len(main), None)
+            src = {}
+            if pl is not None:
+                init = mir.strip_copies(pl["init"])
+                if init[0] == "field" and init[-1] == "0" and len(init) == 3:
+                    init = mir.strip_copies(init[1])
+                if init[0] == "var":
+                    ls = [l for l in range(len(b.locals)) if b.local_name(l) == init[1]]
+                    for (db, di, rv) in (b.defs().get(ls[0], []) if len(ls) == 1 else []):
+                        v = mir.strip_copies(sym.rvalue(rv)) if rv.get("k") not in ("call", "partial") else ("?",)
+                        cols = [x for c in C.constraints_for(ix, b, sym, db) for x in c[1] if x in ("White", "Black")]
+                        src[cols[-1] if cols else None] = v[-1] if v[0] == "field" and "bitboards" in v else expr_str(v)[:40]
+                elif init[0] == "field" and "bitboards" in init:
+                    src[None] = init[-1]
+            turn_ok = key.endswith("get_all_moves") and src in ({"White": "white_pieces", "Black": "black_pieces"}, {None: "all_pieces"})
+            att_ok = key.endswith("get_attacked_squares") and src in ({"White": "black_pieces", "Black": "white_pieces"},)
+            ctx.check(pl is not None and (turn_ok or att_ok), "%s:square-loop" % key, "%s visits the square of every set bit of %s, once" % (C.short(key), src), b.where(0),
+                      bad_what="%s has no 0..64 loop and is not a loop over the set bits of the relevant pieces' board (%s; board %s)" % (C.short(key), why, src))
+            continue
         ctx.check(rngs == {(0, 64)}, "%s:square-loop" % key, "%s loops over squares 0..64" % C.short(key), b.where(0), bad_what="%s loops over %s: a literal bound other than the board size skips squares" % (C.short(key), sorted(rngs)))
     ctx.floor("square loops", n, 3)
 
